@@ -11,7 +11,7 @@
 (*   junk           which junk filling the masked cells carried (0 = none) *)
 (*   d, e, sky      integer data, noise exponents (sigma = 2^e), sky level *)
 (*   mk             "int": integer model m, maps abstracted exactly:       *)
-(*                     res, nres2 (x2), chi2map4 (x4), sn2 (x2), rff (x60),*)
+(*                     res, nres2 (x2), chi2map4 (x4), sn2 (x2), rff (x840),*)
 (*                     chi2q (x4);                                         *)
 (*                  "real": real model (mapped reconstruction); maps in    *)
 (*                     fixed point: m_fix, res_fix, chi2map_fix            *)
@@ -38,7 +38,7 @@ Un(r) == { CellOf(r.u[k], r.w) : k \in DOMAIN r.u }
 NoOff(s) == \A k \in DOMAIN s : s[k] # Off
 NoOffM(M) == \A a \in DOMAIN M : NoOff(M[a])
 InRange(x) == x # Off /\ Abs(x) < 1000000000
-RffDen == 60
+RffDen == 840
 
 \* layout of a map in the record: slim sequence, or native with 0 in masked cells
 Lay(r, s) == IF r.mode = "native" THEN Native(s, Un(r), r.h, r.w, LAMBDA k : 0) ELSE s
